@@ -42,6 +42,10 @@ CLAIMED = {
          "Props/C10.v: C10_covering, C10_order_free (every two complete delivery orders of the imap_unordered results give the same grid), C10_scan_file, C10_expand3, C10_limit_patches, for every list of well-formed 3D levels in any layout. The whip entry point is run in-process under a controlled pool (identity / reverse / random / rotated completion orders), the .npy compared with the extracted model fed the same orders and with an independent covering-grid oracle, for float64 and float32 and every level limit.",
          "dtype conversion = numpy astype applied by the harness (abstract cast); two defects repaired by fix: commits (bytes header, ignored --limit_level), see KNOWN_FINDINGS.txt; np.repeat / slice assignment modelled.",
          "DESIGN.md section 3 C10"),
+ 'C09': ("Coq proof (occupancy resolution divides every box corner; covering mask = not covered by the next level; per-level sums = uncovered cells; whole-cell refinement) + exact integer/dyadic correspondence of per-box worker results and totals",
+         "Props/C09.v: C09_resolution_aligned, C09_mask, C09_partition_masked, C09_partition_finest, C09_limit, C09_once, for every mix of box sizes and alignments. pestle.volume_integral (API and CLI) is run on generated 3D plotfiles (incl. meshes whose smallest box edge does not divide every corner), integer payloads and dyadic cell volumes make every float operation exact: per-box worker results and the total are compared bit for bit with the extracted model and an independent occupancy oracle; decimal geometries within 1e-12.",
+         "floating-point rounding of np.sum is outside the theorems (exact stream); the read prefix of the workers is the C01 single-field read; three defects repaired by fix: commits (limit handling, occupancy resolution), see KNOWN_FINDINGS.txt.",
+         "DESIGN.md section 3 C09"),
 }
 PENDING_REASON = "check not built yet in this round (model and theorems planned in DESIGN.md section 3); not claimed until its check runs"
 
